@@ -26,6 +26,11 @@
 //! an egress pass in between, UDP filling a socket, complete handshake) followed by every cell;
 //! thorough tier: generic depth 2 (every cell as first frame, merged by state fingerprint).
 //!
+//! Address table layouts: besides the default [own, second own address of the same IP version] the
+//! interface is also built with [v4/24, v6/64], [v6/64, v4/24], [v4 host/32, v4/24] and
+//! [v4/24, v4/24 of a second subnet] (address-table scans that stop early or depend on the order
+//! show up there); the second subnet's broadcast address is a source and a destination class.
+//!
 //! Lenient readings (the statement leaves room; the oracle demands no more than is written):
 //!  * an 802.15.4 data frame without any destination addressing is, per IEEE 802.15.4, for the
 //!    coordinator of its SOURCE PAN: with a foreign source PAN it is "for another PAN" (R1); with
@@ -85,6 +90,15 @@ fn two_addrs() -> bool {
     smoltcp::config::IFACE_MAX_ADDR_COUNT >= 2
 }
 
+/// destination address of the cell (the second own address depends on the address table layout)
+fn cell_dst(c: &Cell) -> Option<Addr> {
+    if c.dst == Dst::Own2 {
+        own2_addr(c.ver, c.layout)
+    } else {
+        dst_addr(c.ver, c.dst)
+    }
+}
+
 fn ll_alphabet(m: Med) -> &'static [LlDst] {
     match m {
         Med::Ip => &[LlDst::NoLl],
@@ -111,10 +125,26 @@ fn valid(c: &Cell) -> bool {
     if !ll_alphabet(c.med).contains(&c.ll) {
         return false;
     }
-    if dst_addr(c.ver, c.dst).is_none() || src_addr(c.ver, c.src).is_none() {
+    if cell_dst(c).is_none() || src_addr(c.ver, c.src).is_none() {
+        return false; // (includes: no second own address of this IP version in this layout)
+    }
+    if c.layout != Layout::Same2 && !two_addrs() {
         return false;
     }
     if c.dst == Dst::Own2 && !two_addrs() {
+        return false;
+    }
+    match c.layout {
+        Layout::Same2 | Layout::V4V6 | Layout::V6V4 => {}
+        // the IPv4-only layouts are exercised with IPv4 packets
+        Layout::Host32First | Layout::TwoSubnets => {
+            if c.ver != Ver::V4 {
+                return false;
+            }
+        }
+    }
+    // the second subnet's broadcast address only exists where the second subnet is configured
+    if (c.dst == Dst::Subnet2Bcast || c.src == Src::Bcast2) && c.layout != Layout::TwoSubnets {
         return false;
     }
     if matches!(c.port, Port::DstZero | Port::SrcZero) && !(c.kind == Kind::Udp || c.kind.is_tcp()) {
@@ -193,6 +223,12 @@ struct Plan {
     unjoined_only_for_group_g: bool,
     /// destination port 0 for TCP only with the SYN (quick tier)
     tcp_port0_only_syn: bool,
+    /// non-default address table layouts: socket configurations, neighbor cache bases, whether
+    /// 802.15.4 is included, whether the hand-picked first frames are run (sockets=std)
+    x_socks: Vec<Sock>,
+    x_primed: Vec<bool>,
+    x_lowpan: bool,
+    x_d2: bool,
 }
 
 fn plan(tier: Tier) -> Plan {
@@ -210,6 +246,10 @@ fn plan(tier: Tier) -> Plan {
             ports: vec![Port::Match, Port::NoMatch, Port::DstZero],
             unjoined_only_for_group_g: true,
             tcp_port0_only_syn: true,
+            x_socks: vec![Sock::Std],
+            x_primed: vec![true],
+            x_lowpan: false,
+            x_d2: false,
         },
         Tier::Thorough => Plan {
             socks: Sock::ALL.to_vec(),
@@ -223,7 +263,37 @@ fn plan(tier: Tier) -> Plan {
             ports: Port::ALL.to_vec(),
             unjoined_only_for_group_g: false,
             tcp_port0_only_syn: false,
+            x_socks: vec![Sock::NoSock, Sock::Std, Sock::Bound],
+            x_primed: vec![true, false],
+            x_lowpan: true,
+            x_d2: true,
         },
+    }
+}
+
+/// all cells of one base configuration (everything but the packet coordinates fixed)
+#[allow(clippy::too_many_arguments)]
+fn push_cells(v: &mut Vec<Cell>, p: &Plan, prefix: Prefix, med: Med, ver: Ver, layout: Layout, primed: bool, sock: Sock, joined: bool) {
+    for &kind in Kind::ALL {
+        for &ll in ll_alphabet(med) {
+            for &dst in Dst::ALL {
+                // (depth >= 2 always: the membership only matters for group-g)
+                if (p.unjoined_only_for_group_g || prefix != Prefix::NoPrefix) && !joined && dst != Dst::GroupG {
+                    continue;
+                }
+                for &src in Src::ALL {
+                    for &port in &p.ports {
+                        if p.tcp_port0_only_syn && port == Port::DstZero && kind.is_tcp() && kind != Kind::TcpSyn {
+                            continue;
+                        }
+                        let c = Cell { med, ver, kind, ll, dst, src, port, sock, joined, primed, prefix, auto_first: None, layout };
+                        if valid(&c) {
+                            v.push(c);
+                        }
+                    }
+                }
+            }
+        }
     }
 }
 
@@ -231,6 +301,7 @@ fn enumerate(p: &Plan) -> Vec<Cell> {
     let mut v = vec![];
     let mut prefixes = vec![Prefix::NoPrefix];
     prefixes.extend(p.prefixes.iter().copied());
+    // the default address table layout: the full table
     for &prefix in &prefixes {
         let (socks, joineds) = if prefix == Prefix::NoPrefix { (&p.socks, &p.joined) } else { (&p.d2_socks, &p.d2_joined) };
         for &med in &[Med::Ip, Med::Eth, Med::Lowpan] {
@@ -241,27 +312,30 @@ fn enumerate(p: &Plan) -> Vec<Cell> {
                             continue;
                         }
                         for &joined in joineds {
-                            for &kind in Kind::ALL {
-                                for &ll in ll_alphabet(med) {
-                                    for &dst in Dst::ALL {
-                                        // (depth >= 2 always: the membership only matters for group-g)
-                                        if (p.unjoined_only_for_group_g || prefix != Prefix::NoPrefix) && !joined && dst != Dst::GroupG {
-                                            continue;
-                                        }
-                                        for &src in Src::ALL {
-                                            for &port in &p.ports {
-                                                if p.tcp_port0_only_syn && port == Port::DstZero && kind.is_tcp() && kind != Kind::TcpSyn {
-                                                    continue;
-                                                }
-                                                let c = Cell { med, ver, kind, ll, dst, src, port, sock, joined, primed, prefix, auto_first: None };
-                                                if valid(&c) {
-                                                    v.push(c);
-                                                }
-                                            }
-                                        }
-                                    }
-                                }
+                            push_cells(&mut v, p, prefix, med, ver, Layout::Same2, primed, sock, joined);
+                        }
+                    }
+                }
+            }
+        }
+    }
+    // the other address table layouts: group G joined, reduced socket configurations
+    for &prefix in &prefixes {
+        if prefix != Prefix::NoPrefix && !p.x_d2 {
+            continue;
+        }
+        for &layout in &Layout::ALL[1..] {
+            for &med in &[Med::Ip, Med::Eth, Med::Lowpan] {
+                if med == Med::Lowpan && !p.x_lowpan {
+                    continue;
+                }
+                for &ver in Ver::ALL {
+                    for &primed in &p.x_primed {
+                        for &sock in &p.x_socks {
+                            if prefix != Prefix::NoPrefix && sock != Sock::Std {
+                                continue;
                             }
+                            push_cells(&mut v, p, prefix, med, ver, layout, primed, sock, true);
                         }
                     }
                 }
@@ -328,7 +402,7 @@ fn tcp_dst_port(c: &Cell) -> u16 {
 /// ISN+1 when a SYN-ACK was seen in the prefix).
 fn build_frame(c: &Cell, w: &World, ack: u32) -> Vec<u8> {
     let a = addrs(c.ver);
-    let dst = dst_addr(c.ver, c.dst).unwrap();
+    let dst = cell_dst(c).unwrap();
     let src = src_addr(c.ver, c.src).unwrap();
     let icmp_proto = if c.ver == Ver::V4 { 1 } else { 58 };
     let (tcp_port, udp_port) = match c.port {
@@ -445,7 +519,7 @@ fn execute_strict(c: &Cell) -> Exec {
 }
 
 fn execute_opt(c: &Cell, want_state_fp: bool, strict: bool) -> Exec {
-    let mut w = World::new(c.med, c.ver, c.sock, c.joined, c.primed, strict);
+    let mut w = World::new(c.med, c.ver, c.layout, c.sock, c.joined, c.primed, strict);
     let mut ack = DEFAULT_ACK;
     let mut prefix_hex = None;
     let mut prefix_outs = vec![];
@@ -535,7 +609,7 @@ struct Verdict {
 
 fn judge(c: &Cell, e: &Exec) -> Verdict {
     let mut v = Verdict::default();
-    let dst = dst_addr(c.ver, c.dst).unwrap();
+    let dst = cell_dst(c).unwrap();
     let src = src_addr(c.ver, c.src).unwrap();
     let a = addrs(c.ver);
     let k = c.kind.name();
@@ -626,6 +700,11 @@ fn judge(c: &Cell, e: &Exec) -> Verdict {
     }
     if c.sock == Sock::Bound && c.dst.is_bcast_mcast() && v.delivered.contains(&"udp") {
         v.notes.push("addr_bound_udp_socket_received_bcast_or_mcast");
+    }
+
+    if c.src.is_non_unicast() && !v.delivered.is_empty() {
+        // not demanded by the statement (R3 speaks of RSTs and ICMP errors, R5 of destinations)
+        v.notes.push("non_unicast_source_changed_a_socket");
     }
 
     // ---- R2 ----
@@ -849,6 +928,7 @@ struct Agg {
     outcomes: BTreeMap<String, u64>,
     outcome_by_kind: BTreeMap<String, BTreeMap<String, u64>>,
     per_med: BTreeMap<String, u64>,
+    per_layout: BTreeMap<String, u64>,
     per_depth: BTreeMap<String, u64>,
     delivered_per_socket: BTreeMap<String, u64>,
     notes: BTreeMap<String, u64>,
@@ -891,6 +971,7 @@ impl Agg {
             outcomes: BTreeMap::new(),
             outcome_by_kind: BTreeMap::new(),
             per_med: BTreeMap::new(),
+            per_layout: BTreeMap::new(),
             per_depth: BTreeMap::new(),
             delivered_per_socket: BTreeMap::new(),
             notes: BTreeMap::new(),
@@ -937,6 +1018,7 @@ impl Agg {
         *self.outcomes.entry(v.outcome.clone()).or_insert(0) += 1;
         *self.outcome_by_kind.entry(c.kind.name().to_string()).or_default().entry(v.outcome.clone()).or_insert(0) += 1;
         *self.per_med.entry(format!("{}/{}", c.med.name(), c.ver.name())).or_insert(0) += 1;
+        *self.per_layout.entry(format!("{} {}", c.ver.name(), c.layout.name())).or_insert(0) += 1;
         let depth = if c.auto_first.is_some() { "first-frame=auto(every state-changing cell, merged by state fingerprint)".to_string() } else { format!("first-frame={}", c.prefix.name()) };
         *self.per_depth.entry(depth).or_insert(0) += 1;
         if !v.delivered.is_empty() {
@@ -996,7 +1078,7 @@ fn auto_depth2(rep: &mut Report, agg: &mut Agg) -> Value {
                     for &dst in Dst::ALL {
                         for &src in Src::ALL {
                             for &port in &[Port::Match, Port::NoMatch, Port::DstZero] {
-                                let c = Cell { med, ver, kind, ll, dst, src, port, sock: Sock::Std, joined, primed: true, prefix: Prefix::NoPrefix, auto_first: None };
+                                let c = Cell { med, ver, kind, ll, dst, src, port, sock: Sock::Std, joined, primed: true, prefix: Prefix::NoPrefix, auto_first: None, layout: Layout::Same2 };
                                 if valid(&c) {
                                     base.push(c);
                                 }
@@ -1010,7 +1092,7 @@ fn auto_depth2(rep: &mut Report, agg: &mut Agg) -> Value {
             }
             let fps: Vec<Option<u128>> = base.par_iter().map(|c| catch_unwind(AssertUnwindSafe(|| execute_opt(c, true, false).state_fp)).ok()).collect();
             let initial = catch_unwind(AssertUnwindSafe(|| {
-                let w = World::new(med, ver, Sock::Std, joined, true, true);
+                let w = World::new(med, ver, Layout::Same2, Sock::Std, joined, true, true);
                 w.state_fp()
             }))
             .ok();
@@ -1051,7 +1133,7 @@ pub fn run(tier: Tier) -> i32 {
     rep.assumptions.push("emitted Ethernet/IP frames are classified by an own parser (addr/pkt.rs, wirecheck.rs); for IEEE 802.15.4 the MAC header is parsed by own code and smoltcp::wire is used ONLY to undo IPHC/UDP-NHC compression, the reconstructed IPv6 packet is classified by the own parser".into());
     rep.assumptions.push("delivery to a socket = the `{:?}` image of that TCP/UDP/ICMP/DNS socket differs between just before the frame and just after `poll_ingress_single` (positive controls prove every socket type shows deliveries); raw sockets are not judged".into());
     rep.assumptions.push("lenient readings: see the comment block at the top of src/addr.rs (802.15.4 other station in own PAN, multicast MAC, unspecified/loopback destination under R1, bound UDP socket + broadcast, R3 at IP layer only, loopback/own source not 'non-unicast')".into());
-    rep.assumptions.push(format!("interface: one IP version per cell with {} own address(es) (IFACE_MAX_ADDR_COUNT={}), default route via an on-link gateway, PAN id 0xbeef on 802.15.4", if two_addrs() { 2 } else { 1 }, smoltcp::config::IFACE_MAX_ADDR_COUNT));
+    rep.assumptions.push(format!("interface: packets of one IP version per cell, {} own address(es) in one of the address table layouts (IFACE_MAX_ADDR_COUNT={}), default route via an on-link gateway, PAN id 0xbeef on 802.15.4", if two_addrs() { 2 } else { 1 }, smoltcp::config::IFACE_MAX_ADDR_COUNT));
 
     let p = plan(tier);
     let cells = enumerate(&p);
@@ -1081,6 +1163,12 @@ pub fn run(tier: Tier) -> i32 {
             "group_g_not_joined_at_depth2_only_for_dst_group_g": true,
             "generic_depth2_ports": ["matching", "not-matching", "dst-port-0"],
             "generic_depth2": p.auto_d2,
+            "address_table_layout": Layout::ALL.iter().map(|x| x.name()).collect::<Vec<_>>(),
+            "non_default_layouts": {
+                "sockets": p.x_socks.iter().map(|x| x.name()).collect::<Vec<_>>(), "neighbors_primed": p.x_primed, "ieee802154": p.x_lowpan,
+                "hand_picked_first_frames(sockets=std)": p.x_d2, "group_g_joined": [true],
+                "note": "IPv4-only layouts with IPv4 packets; the second subnet's broadcast is a source and a destination class where that subnet is configured",
+            },
         }),
     );
     rep.cov("rule", json!("full product of the dimensions above, filtered by `valid()` (6LoWPAN => IPv6; ARP => Ethernet/IPv4, target classes own/own2/other/offlink/bcast/unspec; NS => IPv6; DNS response => std+dns sockets; address classes that do not exist for the IP version dropped; port 0 only for UDP/TCP; cold neighbor cache only where a cache exists and not with the DNS socket; first frame 'teach' on the cold base, the other first frames on the primed base). A cell = one frame injected into a fresh interface (after the optional first frame(s)). Thorough tier additionally: generic depth 2 (see generic_depth2). states = distinct (kind, version, dst class, src class, outcome) tuples; transitions = frames injected; validated = cells re-executed on a second fresh interface with byte-identical output frames and socket images (every 16th cell and every violating cell)."));
@@ -1132,6 +1220,7 @@ pub fn run(tier: Tier) -> i32 {
     rep.add_count("distinct_nontrivial", agg.obs_distinct.len() as u64);
     rep.cov("cells_executed", json!(agg.cells));
     rep.cov("cells_per_medium_version", json!(agg.per_med));
+    rep.cov("cells_per_address_table_layout", json!(agg.per_layout));
     rep.cov("cells_per_first_frame", json!(agg.per_depth));
     rep.cov("cells_per_outcome_class", json!({"delivered_to_some_socket": agg.class_counts[0], "some_frame_emitted": agg.class_counts[1], "silent": agg.class_counts[2]}));
     rep.cov("cells_per_outcome", json!(agg.outcomes));
